@@ -9,7 +9,10 @@ def c09_stats(cases, model):
     racing = collections.Counter()    # what happened between the request and the answer
     open_at_state = 0
     stress = collections.Counter()
+    worlds = collections.Counter()    # client types / connections of session 0 in the cases that say so
     for c in cases:
+        if c["ops"] and c["ops"][0].startswith("world "):
+            worlds[c["ops"][0].split()[1]] += 1
         lens.append(len(c["ops"]))
         for t in c.get("tags") or ["-"]:
             tags[t] += 1
@@ -27,7 +30,8 @@ def c09_stats(cases, model):
                     late[i] += 1
                 if f[1] in begun:
                     between = set(x.split()[0] for x in c["ops"][begun[f[1]] + 1:idx])
-                    for b in ("leave", "incall", "close", "perms", "join", "offer", "request"):
+                    for b in ("leave", "incall", "close", "perms", "join", "offer", "request", "incallall", "intincall",
+                              "delroom", "disinvite", "kick", "asyncbye", "bye", "drop", "expire"):
                         if b in between:
                             racing[b] += 1
             if kind == "state" and not i.startswith("-"):
@@ -38,7 +42,7 @@ def c09_stats(cases, model):
                 stress["open_objects_at_quiescence"] += 0 if body == "-" else len(body.split(","))
                 stress["sessions_closed_midway"] += i.count("=c:")
     return dict(verdicts=_verdict_stats(cases, model), ops=dict(ops), impl_outcomes=dict(outs), tags=dict(tags),
-                answered_ok=dict(late), actions_between_request_and_answer=dict(racing),
+                answered_ok=dict(late), actions_between_request_and_answer=dict(racing), session0_types=dict(worlds),
                 observations_with_open_objects=open_at_state, stress=dict(stress),
                 max_case_len=max(lens or [0]), mean_case_len=round(sum(lens) / max(1, len(lens)), 1))
 
@@ -58,7 +62,9 @@ CONFIG = dict(
         "C09_late_creation_closed", "C09_single_publisher", "C09_single_publisher_code",
         "C09_race_loser_closed", "C09_doClose_closes", "C09_epoch_monotone", "C09_no_release_between", "C09_release_bumps",
         "C09_close_bumps", "C09_closeCancel_closes", "C09_stamp_at_begin", "C09_exec_reachable", "C09_asIs_orphan",
-        "C09_early_sweep_orphan", "C09_early_sweep_orphan_code"]],
+        "C09_early_sweep_orphan", "C09_early_sweep_orphan_code",
+        "C09_code_exits", "C09_leaving_releases", "C09_leaving_releases_code", "C09_exit_closes", "C09_exit_ops_end",
+        "C09_incall_all_without_leave_orphan", "C09_incall_all_code_closes"]],
     generated=["Mcu"],
     harness=dict(pkg="signaling", test="TestVerifC09", go="go1.26"),
     # real-concurrency variant of the same harness files, built with the race detector: one `stress` op per case,
@@ -68,10 +74,18 @@ CONFIG = dict(
     stats=c09_stats,
     nontrivial=c09_nontrivial,
     rule="real ClientSessions in a real Hub with a gate-controlled fake Mcu inside a testing/synctest bubble; cases = "
-         "(a) the witness schedules of the repaired defect, (b) all orders of <= 4 concurrent threads "
+         "(a) the witness schedules of the repaired defect, (a') every way out x every client type: session 0 as user / "
+         "federation / internal / internal+internal-incall client, with and without a real Client on an in-memory "
+         "websocket, put into the call by the backend (one session / all=true) or by its own incall message, owning a "
+         "stored object, one in creation, both, or asking again afterwards (camera, screen, two subscriber paths), then "
+         "leave / room switch / backend incall for it / backend incall all=true / own incall message / room deleted / "
+         "disinvite / room-session reconnect (local, asynchronous) / bye / connection lost + expiry / Close / revocation, "
+         "plus the same events aimed at another room and a roomless session that ends (all of them in both tiers), "
+         "(b) all orders of <= 4 concurrent threads "
          "(1-2 creations = request + media-server answer ok/fail/timeout, 0-2 of leave / leave call / close / "
          "revoke / switch room; thorough: every order of every such thread set with <= 3 threads or one creation, "
-         "and of a third of the 2-creation + 2-action sets chosen by the seed; quick: PRNG sample of these), (c) PRNG histories over 3 sessions, "
+         "and of a third of the 2-creation + 2-action sets chosen by the seed; quick: PRNG sample of these), (c) PRNG histories over 3 sessions "
+         "(half of them with PRNG client types / connections and the ops of (a')), "
          "2 rooms, 3 stream types, 12 permission sets with interspersed observations, (d) malformed lines, (e) stress "
          "runs under the race detector (one client goroutine per session + 2-8 backend goroutines, 5-40 actions "
          "each, the fake media server answering on its own), (f) the real Janus client against the repository's "
@@ -98,7 +112,12 @@ CONFIG = dict(
         "started the request'; the admission check of requestoffer (Hub.isInSameCall) happens before that section "
         "and is C08's subject: the model admits any subscriber request at any time",
         "media-server initiated closes (Janus connection lost, unshareScreen timer) and clustered (gRPC / remote) "
-        "publishers are not modelled; sessions are client sessions of one backend",
+        "publishers are not modelled; sessions are client sessions (user, federation, internal) of one backend; virtual "
+        "sessions own no media objects and only take part as members of the room's session and in-call sets",
+        "ways out that are tied by facts only (exitCalls / roomClearSites / cancelSites in C09_code_exits) and not driven "
+        "by the harness: the anonymous-session room-join timeout, joining a federated room (SetFederationClient -> "
+        "doLeaveRoom), hub shutdown, a session resumed by a new connection (not a way out); an internal client's incall "
+        "message that repeats the flags it already has is not an event (the in-call state set by the backend stays)",
         "the permission clause for screen publishers of the current tree depends on the revocation goroutine not "
         "returning early (fact sweepReturnsEarly, C08's finding): proved under that hypothesis "
         "(C09_no_orphan_code_full), refuted otherwise (C09_early_sweep_orphan_code), observed by the harness as "
@@ -115,9 +134,16 @@ MANIFEST = dict(
          "handed to a closing goroutine or tracked by its live owner with the owner's current release generation; at "
          "quiescence every open object is entitled (owner live, no leave/close since the request started, permitted, "
          "owned) and there is at most one per session and key; a creation completing after the owner is gone and the "
-         "loser of a creation race are closed. The model is defined over facts regenerated from the source (lock / "
+         "loser of a creation race are closed. Every harness op - each way a session of any client type stops being in "
+         "the call, in its room or alive (own leave / room switch, backend incall for one or for everybody, the internal "
+         "client's own incall message, room deleted, disinvite, room-session reconnect, bye, expiry, Close) - moves the "
+         "session's release generation inside the op (C09_leaving_releases), so whatever it owned or was having created "
+         "is closed once things settle (C09_exit_closes); regenerated facts say for every statement that takes sessions "
+         "out of a room's in-call set which of them get LeaveCall() (C09_code_exits; proved witness of what a skipped "
+         "client type would leave open). The model is defined over facts regenerated from the source (lock / "
          "snapshot / create / re-check / store order of both functions, the generation check, release sites, stream "
-         "types, shape of the revocation sweep) and tied by a differential run of real ClientSessions in a real Hub "
+         "types, shape of the revocation sweep, in-call removal sites with their LeaveCall feed, exit functions of hub / "
+         "client) and tied by a differential run of real ClientSessions in a real Hub "
          "against a gate-controlled fake Mcu (all orders of <= 4 concurrent threads x media-server outcomes, PRNG "
          "histories); the spec's entitlement predicate is evaluated on the fake media server's open set.",
     note="Defects found and repaired: (fix: b9c3e65) objects whose creation completed after leave room / leave call / "
